@@ -31,7 +31,25 @@ fn mutate_generic(bytes: &[u8], rng: &mut Rng) -> (Vec<u8>, &'static str) {
         let n = 1 + rng.usize_below(4);
         return (rng.bytes(n), "grow-empty");
     }
-    match rng.below(7) {
+    match rng.below(10) {
+        7 | 8 => {
+            // framing offsets sit at the tail of every container: move one a little, so that it lands just before / inside /
+            // just after the padding or the neighbouring child it delimits
+            let k = 1 + rng.usize_below(b.len().min(12));
+            let p = b.len() - k;
+            let d = 1 + rng.below(8) as u8;
+            b[p] = if rng.bool() { b[p].wrapping_add(d) } else { b[p].wrapping_sub(d) };
+            (b, "tail-offset-nudge")
+        }
+        9 => {
+            // the same for offsets of inner containers: any byte that could be an offset into this buffer
+            let cands: Vec<usize> = (0..b.len()).filter(|i| b[*i] != 0 && (b[*i] as usize) <= bytes.len()).collect();
+            if let Some(&p) = cands.get(rng.usize_below(cands.len().max(1))) {
+                let d = 1 + rng.below(8) as u8;
+                b[p] = if rng.bool() { b[p].wrapping_add(d) } else { b[p].wrapping_sub(d) };
+            }
+            (b, "inner-offset-nudge")
+        }
         0 => {
             let k = 1 + rng.usize_below(b.len().min(8));
             let p = b.len() - k + rng.usize_below(k);
